@@ -58,6 +58,8 @@ type Config struct {
 	SamePrefixIncludes   bool // one file including two files with equal base names
 	SetOfContainers      bool // set<list<…>> with defaults etc.
 	KeywordNames         bool // Go keywords in the stress name pool
+	TypedefContainerConst     bool // constant/default whose type is a typedef of a container: thriftgo panics (nil deref in resolveConst)
+	StructLiteralInContainer  bool // struct literals inside list/set/map literals: do not compile under value_type_in_container
 	ExponentDoubles      bool // 1.5e-3: the parser takes the exponent for the value (DESIGN §7, C03)
 	DupThrows            bool // the same exception type twice in one throws list (duplicate case in the processor's type switch)
 }
@@ -448,6 +450,9 @@ func (g *gen) enum() *Enum {
 					v.Value = []int64{math.MaxInt32, math.MinInt32, 0x7f, 0x8000}[g.r.Intn(4)]
 				default:
 					v.Value = cur + 1 + int64(g.r.Intn(4))
+				}
+				if v.Value > math.MaxInt32 {
+					v.Value = int64(g.r.Intn(1000))
 				}
 				if !usedV[v.Value] {
 					break
@@ -853,7 +858,7 @@ func (g *gen) constDef(fi int) *ConstDef {
 	var t *Type
 	for try := 0; try < 10; try++ {
 		t = g.genType(ctx, 2)
-		if g.constable(t, 0) {
+		if g.constable(t, 0, false) {
 			break
 		}
 		t = nil
@@ -871,18 +876,24 @@ func (g *gen) constDef(fi int) *ConstDef {
 }
 
 // constable: can a literal of this type be written (and digested by thriftgo)?
-func (g *gen) constable(t *Type, depth int) bool {
+func (g *gen) constable(t *Type, depth int, inCont bool) bool {
+	if t.Kind == Named && g.p.catOf(t) == 'c' && !g.cfg.TypedefContainerConst {
+		return false
+	}
+	if inCont && g.p.catOf(t) == 's' && !g.cfg.StructLiteralInContainer {
+		return false
+	}
 	d := g.p.deref(t)
 	switch d.Kind {
 	case Binary:
 		return g.cfg.BinaryDefaults
 	case List, Set:
-		return g.cfg.ContainerConst && depth < 3 && g.constable(d.Elem, depth+1)
+		return g.cfg.ContainerConst && depth < 3 && g.constable(d.Elem, depth+1, true)
 	case Map:
 		if g.p.catOf(d.Key) == 's' || g.p.catOf(d.Key) == 'c' {
 			return false
 		}
-		return g.cfg.ContainerConst && depth < 3 && g.constable(d.Key, depth+1) && g.constable(d.Elem, depth+1)
+		return g.cfg.ContainerConst && depth < 3 && g.constable(d.Key, depth+1, true) && g.constable(d.Elem, depth+1, true)
 	case Named:
 		if g.p.catOf(d) == 'e' {
 			return true
@@ -905,7 +916,7 @@ func (g *gen) markDefaults(fi int, st *Struct) {
 		if st.Kind == 'u' && (hasDefault || !g.r.Chance(20)) {
 			continue
 		}
-		if !g.constable(f.Type, 0) {
+		if !g.constable(f.Type, 0, false) {
 			continue
 		}
 		// no defaults on fields that take part in a recursion through this file's structs
@@ -1089,7 +1100,7 @@ func (g *gen) constOf(fi int, t *Type, depth int, top bool) *Const {
 		set1 := false
 		for _, fd := range st.Fields {
 			z := g.zeroOfField(st, fd)
-			take := g.r.Chance(50) && g.constable(fd.Type, depth+1) && !(st.Kind == 'u' && set1)
+			take := g.r.Chance(50) && g.constable(fd.Type, depth+1, false) && !(st.Kind == 'u' && set1)
 			if take && g.p.catOf(fd.Type) == 's' && g.reaches(fd.Type, d.Named.File, st.Name, 0) {
 				take = false
 			}
